@@ -197,16 +197,16 @@ type simConn struct {
 }
 
 type simCase struct {
-	e         *lp.Exec
-	g         *nbio.Engine
-	conns     []*simConn
-	mu        sync.Mutex
-	closeGate chan struct{} // nil = open
-	opens     int32
-	closes    int32
-	stopState int32 // 0 idle 1 running 2 returned
+	e          *lp.Exec
+	g          *nbio.Engine
+	conns      []*simConn
+	mu         sync.Mutex
+	closeGate  chan struct{} // nil = open
+	opens      int32
+	closes     int32
+	stopState  int32 // 0 idle 1 running 2 returned
 	heldAtStop bool
-	npoll     int
+	npoll      int
 }
 
 func (s *simCase) state() string {
